@@ -141,6 +141,12 @@ type forkSpec struct {
 	// for nil (same height and round, correct sign bytes, nil flag, right address and index) instead of being absent -
 	// what a forger can harvest from a round of that height that did not decide. Such slots must never count.
 	nilRest bool
+	// relabelNil: those genuine nil precommits sit in the commit under BlockIDFlagCommit (as if they were for the block);
+	// emptyPSH: the commit's BlockID has the header hash but an EMPTY part-set header (well formed for ValidateBasic) - the
+	// coalition signs exactly that id. A signature over nil is a signature over nil, whatever the slot claims and however
+	// little of a block id the commit carries.
+	relabelNil bool
+	emptyPSH   bool
 	// layout != "": the commits of the blocks that carry the forged validator set are NOT laid out one slot per member
 	// of that set. The forged set is {heavy forger keys holding > 2/3 of it, fillers of power 1}; the heavy keys sign
 	// their own (leading) slots, which is all an index-based +2/3 check ever looks at, and the filler slots are free:
@@ -249,6 +255,14 @@ func (w *world) genFork(t *rapid.T, label string, j, m int64, refVals *types.Val
 	default:
 		fs.nilRest = rapid.IntRange(0, 3).Draw(t, label+".nilRest") == 0
 	}
+	if fs.nilRest {
+		fs.relabelNil = rapid.Bool().Draw(t, label+".relabelNil")
+	}
+	if fs.relabelNil {
+		fs.emptyPSH = rapid.IntRange(0, 2).Draw(t, label+".emptyPSH") != 0
+	} else {
+		fs.emptyPSH = rapid.IntRange(0, 7).Draw(t, label+".emptyPSH") == 0
+	}
 	fs.timeMode = rapid.SampledFrom([]string{"genuine", "genuine", "genuine", "genuine", "genuine", "equal", "before", "future", "rel", "rel", "rel"}).Draw(t, label+".time")
 	if fs.timeMode == "rel" {
 		lo, hi := ref, j-1
@@ -336,6 +350,38 @@ func (w *world) genLayout(t *rapid.T, label string, fs *forkSpec, coal []int, re
 			fs.slots[i] = slotPlan{kind: kind, key: rapid.SampledFrom(coal).Draw(t, label+".member")}
 		}
 	}
+}
+
+// forgeShaped builds the light block for header h over vals with one slot per member: signers sign the commit's block
+// id (with an empty part-set header if fs.emptyPSH), nilSigners contribute a genuine precommit for nil which is flagged
+// as for-block if fs.relabelNil, everybody else is absent.
+func (w *world) forgeShaped(fs forkSpec, h types.Header, vals *types.ValidatorSet, signers, nilSigners []int) *types.LightBlock {
+	id := types.BlockID{Hash: h.Hash()}
+	if !fs.emptyPSH {
+		p := sha256.Sum256(append([]byte("forged-parts/"), h.Hash()...))
+		id.PartSetHeader = types.PartSetHeader{Total: 1, Hash: p[:]}
+	}
+	sigs := make([]types.CommitSig, len(vals.Validators))
+	for i, v := range vals.Validators {
+		ts := h.Time.Add(time.Second + time.Duration(i)*time.Millisecond)
+		k := lib.KeyIndex(v.Address)
+		switch {
+		case k >= 0 && containsInt(signers, k):
+			v := lib.MakeVote(w.chainID, k, int32(i), tmproto.PrecommitType, h.Height, fs.round, id, ts)
+			sigs[i] = types.CommitSig{BlockIDFlag: types.BlockIDFlagCommit, ValidatorAddress: v.ValidatorAddress, Timestamp: v.Timestamp, Signature: v.Signature}
+		case k >= 0 && containsInt(nilSigners, k):
+			v := lib.MakeVote(w.chainID, k, int32(i), tmproto.PrecommitType, h.Height, fs.round, types.BlockID{}, ts)
+			sigs[i] = types.CommitSig{BlockIDFlag: types.BlockIDFlagNil, ValidatorAddress: v.ValidatorAddress, Timestamp: v.Timestamp, Signature: v.Signature}
+			if fs.relabelNil {
+				sigs[i].BlockIDFlag = types.BlockIDFlagCommit
+			}
+		default:
+			sigs[i] = types.NewCommitSigAbsent()
+		}
+	}
+	hh := h
+	return &types.LightBlock{SignedHeader: &types.SignedHeader{Header: &hh, Commit: types.NewCommit(h.Height, fs.round, id, sigs)},
+		ValidatorSet: vals.Copy()}
 }
 
 // forgeLaidOut builds the light block for header h with validator set fs.fv and the commit layout of fs.
@@ -434,6 +480,8 @@ func (w *world) build(fs forkSpec, base func(int64) *types.LightBlock) map[int64
 		var lb *types.LightBlock
 		if fs.layout != "" && vals == fs.fv.Set {
 			lb = w.forgeLaidOut(fs, h)
+		} else if fs.relabelNil || fs.emptyPSH {
+			lb = w.forgeShaped(fs, h, vals, signers, nilSigners)
 		} else {
 			lb = lib.ForgeLightBlock(w.chainID, h, vals, false, fs.round, signers, nilSigners)
 		}
